@@ -3,7 +3,7 @@
    the table o (== != < <= > >= - ++ -- + += - -= [] * ) is integer arithmetic on positions. *)
 From Coq Require Import List ZArith Bool.
 From Coq Require Import Sorted Permutation.
-From DuneV Require Import C16_Model C16_Spec C16_Proofs C16_Proofs_Ranges C16_Proofs_Audit.
+From DuneV Require Import Params_gen C16_Model C16_Spec C16_Proofs C16_Proofs_Ranges C16_Proofs_Audit C16_Proofs_Deep C16_Proofs_Deep2.
 Import ListNotations.
 Local Open Scope Z_scope.
 
@@ -86,13 +86,14 @@ Theorem C16_arraylist_iterator :
 Proof. exact c16_alist_prim_laws. Qed.
 Print Assumptions C16_arraylist_iterator.
 
-(* IntegralRangeIterator<T>, any width/signedness, after fixes/C16-1.patch *)
+(* IntegralRangeIterator<T>, any width/signedness, with the comparison-operator tokens of the CURRENT source (c16_param_ir_* in
+   Params_gen.v, re-read by tools/params.d/C16.py on every run): editing a token in rangeutilities.hh makes this proof fail *)
 Theorem C16_integral_range_iterator :
   forall t from lo hi,
     0 < c16_bits t -> lo <= 0 <= hi ->
     c16_tmin t <= from + lo -> from + hi <= c16_tmax t -> hi - lo < 2 ^ (c16_bits t - 1) ->
-    c16_iter_laws (c16_ir_ops t true) (c16_ir_rep t from) lo hi.
-Proof. exact c16_ir_iter_laws. Qed.
+    c16_iter_laws (c16_ir_ops_src t) (c16_ir_rep t from) lo hi.
+Proof. exact c16_ir_src_iter_laws. Qed.
 Print Assumptions C16_integral_range_iterator.
 
 (* ... and as written in the unfixed tree: every iterator is less than and greater than itself (F-C16-1) *)
@@ -253,6 +254,169 @@ Theorem C16_integer_sequence_helpers :
 Proof. exact c16_integer_sequence_helpers. Qed.
 Print Assumptions C16_integer_sequence_helpers.
 
+(* ---- proof-deepening round: every operator of every class, postfix forms, conversions, container identity, ranges over any iterator ---- *)
+(* postfix ++ / -- return the old value and advance; n + it = it + n; -> reaches what * yields *)
+Theorem C16_postfix_nplus_arrow :
+  forall (P V : Type) (o : c16_ops P V) (rep : Z -> P) (lo hi : Z), c16_iter_laws o rep lo hi ->
+  forall a, c16_in lo hi a ->
+    (c16_in lo hi (a + 1) -> c16_post_inc o (rep a) = (rep a, rep (a + 1))) /\
+    (c16_in lo hi (a - 1) -> c16_post_dec o (rep a) = (rep a, rep (a - 1))) /\
+    (forall n, c16_in lo hi (a + n) -> c16_nplus o n (rep a) = rep (a + n) /\ c16_nplus o n (rep a) = c16_o_plus o (rep a) n) /\
+    c16_arrow o (rep a) = c16_o_star o (rep a).
+Proof. exact c16_postfix_laws. Qed.
+Print Assumptions C16_postfix_nplus_arrow.
+
+(* iterators storing their container: the primitive laws lift; iterators into different containers are never equal; conversion keeps both members *)
+Theorem C16_container_tagged_primitives :
+  forall (P V : Type) (pr : c16_prims P V) (rep : Z -> P) (lo hi : Z), c16_prim_laws pr rep lo hi ->
+  forall c : Z, c16_prim_laws (c16_tag_prims pr) (fun a => (c, rep a)) lo hi.
+Proof. exact c16_tag_prim_laws. Qed.
+Print Assumptions C16_container_tagged_primitives.
+
+Theorem C16_container_identity :
+  forall (P V : Type) (pr : c16_prims P V) (conv : bool) (c1 c2 : Z) (x y : P),
+    c1 <> c2 ->
+    c16_o_eq (c16_legacy_ops (c16_tag_prims pr) conv) (c1, x) (c2, y) = false /\
+    c16_o_ne (c16_legacy_ops (c16_tag_prims pr) conv) (c1, x) (c2, y) = true /\
+    c16_convert (c1, x) = (c1, x).
+Proof. exact c16_tag_container_identity. Qed.
+Print Assumptions C16_container_identity.
+
+(* the complete operator table (comparisons, difference, increments, decrements, advance, subscript, dereference) of each class, for every const/mutable mix *)
+Theorem C16_dense_iterator_all_operators :
+  forall xs conv c,
+    c16_iter_laws (c16_legacy_ops (c16_tag_prims (c16_dense_prims xs)) conv) (fun a => (c, c16_dense_rep a)) (- 2 ^ 61) (2 ^ 61).
+Proof. exact c16_dense_iterator_laws. Qed.
+Print Assumptions C16_dense_iterator_all_operators.
+
+Theorem C16_generic_iterator_all_operators :
+  forall xs conv c lo hi,
+    c16_iter_laws (c16_legacy_ops (c16_tag_prims (c16_generic_prims xs)) conv) (fun a => (c, a)) lo hi.
+Proof. exact c16_generic_iterator_laws. Qed.
+Print Assumptions C16_generic_iterator_all_operators.
+
+Theorem C16_arraylist_iterator_all_operators :
+  forall start size st conv,
+    c16_iter_laws (c16_legacy_ops (c16_alist_prims start size st) conv) (c16_alist_rep start) (- 2 ^ 61) (2 ^ 61).
+Proof. exact c16_arraylist_iterator_laws. Qed.
+Print Assumptions C16_arraylist_iterator_all_operators.
+
+(* TransformedRangeIterator (value or iterator transformation) and sparseRange's iterator over ANY lawful underlying iterator *)
+Theorem C16_transformed_iterator_all_operators :
+  forall (P V W : Type) (o : c16_ops P V) (rep : Z -> P) (lo hi : Z), c16_iter_laws o rep lo hi ->
+    (forall f : V -> W, c16_iter_laws (c16_tr_over o f) rep lo hi) /\
+    (forall g : P -> W, c16_iter_laws (c16_itr_over o g) rep lo hi) /\
+    (forall index, c16_iter_laws (c16_sparse_over o index) rep lo hi).
+Proof. exact c16_transformed_iterator_laws. Qed.
+Print Assumptions C16_transformed_iterator_all_operators.
+
+Theorem C16_transformed_vector_iterator_all_operators :
+  forall f xs lo hi,
+    c16_iter_laws (c16_tr_ops f xs) (fun z => z) lo hi /\ c16_iter_laws (c16_sparse_ops xs (fun p => p)) (fun z => z) lo hi.
+Proof. exact c16_tr_vector_iterator_laws. Qed.
+Print Assumptions C16_transformed_vector_iterator_all_operators.
+
+(* IndexedIterator<Iter> over any lawful Iter is a lawful iterator whose index() is start index + position; the inherited it + n / it - n drop the index *)
+Theorem C16_indexed_iterator_all_operators :
+  forall (P V : Type) (o : c16_ops P V) (rep : Z -> P) (lo hi : Z), c16_iter_laws o rep lo hi ->
+  forall i0 : Z,
+    c16_iter_laws (c16_idx_ops o) (fun a => (rep a, i0 + a)) lo hi /\
+    (forall a, c16_in lo hi a -> c16_idx_index (rep a, i0 + a) = i0 + a) /\
+    (forall a n, c16_in lo hi a -> c16_in lo hi (a + n) -> c16_idx_plus o (rep a, i0 + a) n = rep (a + n)) /\
+    (forall a n, c16_in lo hi a -> c16_in lo hi (a - n) -> c16_idx_minus o (rep a, i0 + a) n = rep (a - n)) /\
+    (forall a, c16_in lo hi a -> c16_in lo hi (a + 1) -> c16_idx_post_inc o (rep a, i0 + a) = ((rep a, i0 + a), (rep (a + 1), i0 + (a + 1)))) /\
+    (forall a, c16_in lo hi a -> c16_in lo hi (a - 1) -> c16_idx_post_dec o (rep a, i0 + a) = ((rep a, i0 + a), (rep (a - 1), i0 + (a - 1)))).
+Proof. exact c16_indexed_iterator_laws. Qed.
+Print Assumptions C16_indexed_iterator_all_operators.
+
+(* range-based for over an IteratorRange of forward-lawful iterators visits exactly positions a .. a+n-1 *)
+Theorem C16_iterator_range :
+  forall (P V : Type) (o : c16_ops P V) (rep : Z -> P) (lo hi : Z), c16_fwd_laws o rep lo hi ->
+  forall (n : nat) (a : Z) (fuel : nat), c16_in lo hi a -> c16_in lo hi (a + Z.of_nat n) -> (n < fuel)%nat ->
+    c16_range_for o fuel (c16_iterrange (rep a) (rep (a + Z.of_nat n))) = C16Ok (map (fun k => c16_o_star o (rep (a + Z.of_nat k))) (seq 0 n)).
+Proof. exact c16_range_for_correct. Qed.
+Print Assumptions C16_iterator_range.
+
+(* transformed / sparse range over the range of ANY lawful iterator: f applied to each element once in order; entries paired with index() *)
+Theorem C16_transformed_over_any_range :
+  forall (P V W : Type) (o : c16_ops P V) (rep : Z -> P) (lo hi : Z), c16_iter_laws o rep lo hi ->
+  forall (f : V -> W) (index : P -> Z) (n : nat) (a : Z) (fuel : nat), c16_in lo hi a -> c16_in lo hi (a + Z.of_nat n) -> (n < fuel)%nat ->
+    c16_range_for (c16_tr_over o f) fuel (c16_iterrange (rep a) (rep (a + Z.of_nat n))) =
+      C16Ok (map (fun k => f (c16_o_star o (rep (a + Z.of_nat k)))) (seq 0 n)) /\
+    c16_range_for (c16_sparse_over o index) fuel (c16_iterrange (rep a) (rep (a + Z.of_nat n))) =
+      C16Ok (map (fun k => (c16_o_star o (rep (a + Z.of_nat k)), index (rep (a + Z.of_nat k)))) (seq 0 n)).
+Proof. exact c16_transformed_range_correct. Qed.
+Print Assumptions C16_transformed_over_any_range.
+
+Theorem C16_sparse_over_indexed_range :
+  forall (P V : Type) (o : c16_ops P V) (rep : Z -> P) (lo hi : Z), c16_iter_laws o rep lo hi ->
+  forall (i0 : Z) (n : nat) (a : Z) (fuel : nat), c16_in lo hi a -> c16_in lo hi (a + Z.of_nat n) -> (n < fuel)%nat ->
+    c16_range_for (c16_sparse_over (c16_idx_ops o) c16_idx_index) fuel (c16_iterrange (rep a, i0 + a) (rep (a + Z.of_nat n), i0 + (a + Z.of_nat n))) =
+      C16Ok (map (fun k => (c16_o_star o (rep (a + Z.of_nat k)), i0 + (a + Z.of_nat k))) (seq 0 n)).
+Proof. exact c16_sparse_indexed_range_correct. Qed.
+Print Assumptions C16_sparse_over_indexed_range.
+
+(* SLList: iterator / const_iterator / ModifyIterator with their declared equals overloads and converting constructors: all nine
+   operator== / != instantiations compare the nodes; ++ moves both parts of the modify iterator; conversions keep the node *)
+Theorem C16_sllist_three_classes :
+  forall l r : c16_sl,
+    c16_sl_facade_eq l r = (c16_sl_cur l =? c16_sl_cur r) /\
+    c16_sl_facade_ne l r = negb (c16_sl_cur l =? c16_sl_cur r) /\
+    c16_sl_member_equals l r = (c16_sl_cur l =? c16_sl_cur r) /\
+    c16_sl_cur (c16_sl_inc l) = c16_sl_cur l + 1 /\ c16_sl_class (c16_sl_inc l) = c16_sl_class l /\
+    (c16_sl_wf l -> c16_sl_wf (c16_sl_inc l)) /\
+    c16_sl_cur (c16_sl_to_const l) = c16_sl_cur l /\ c16_sl_cur (c16_sl_to_it l) = c16_sl_cur l /\
+    c16_sl_wf c16_sl_begin_modify /\ (forall n, c16_sl_wf (c16_sl_end_modify n)) /\
+    c16_sl_cur c16_sl_begin_modify = 0 /\ (forall n, c16_sl_cur (c16_sl_end_modify n) = n).
+Proof. exact c16_sllist_classes_correct. Qed.
+Print Assumptions C16_sllist_three_classes.
+
+(* StaticIntegralRange<T,to,from>: size, operator[] (size_type and integral_constant index), integer_sequence, range-based for *)
+Theorem C16_static_integral_range :
+  forall t from to,
+    0 < c16_bits t -> c16_tmin t <= from -> from <= to -> to <= c16_tmax t ->
+    c16_sirange_size t from to = to - from /\
+    (forall i, 0 <= i < to - from -> Some (c16_sirange_at t from i) = nth_error (c16_spec_irange from to) (Z.to_nat i)) /\
+    c16_sirange_seq t from to = c16_spec_irange from to /\
+    (forall fuel, (Z.to_nat (to - from) < fuel)%nat ->
+       c16_range_for (c16_ir_ops_src t) fuel (c16_iterrange from to) = C16Ok (map Some (c16_spec_irange from to))).
+Proof. exact c16_static_integral_range_correct. Qed.
+Print Assumptions C16_static_integral_range.
+
+(* Hybrid::integralRange / forEach over index ranges: compile-time and run-time loops visit the same indices from .. to-1 *)
+Theorem C16_hybrid_integral_range :
+  forall t from to fuel,
+    0 < c16_bits t -> c16_tmin t <= from -> from <= to -> to <= c16_tmax t -> (Z.to_nat (to - from) < fuel)%nat ->
+    c16_hy_log C16Static (c16_sirange_seq t from to) = c16_spec_irange from to /\
+    c16_range_for (c16_ir_ops_src t) fuel (c16_iterrange from to) = C16Ok (map Some (c16_hy_log C16Static (c16_sirange_seq t from to))) /\
+    c16_hy_size C16Static (c16_sirange_seq t from to) = to - from.
+Proof. exact c16_hybrid_integral_range_correct. Qed.
+Print Assumptions C16_hybrid_integral_range.
+
+(* "visit exactly the intended elements": range-based for over the containers' own begin() .. end() yields the stored elements in order
+   (DenseVector / DenseMatrix rows, a GenericIterator container, SLList, DiagonalMatrix rows; ArrayList with its start offset) *)
+Theorem C16_container_traversal :
+  forall (xs : list Z) (conv : bool) (fuel : nat),
+    Z.of_nat (length xs) <= 2 ^ 61 -> (length xs < fuel)%nat ->
+    let n := Z.of_nat (length xs) in
+    c16_range_for (c16_legacy_ops (c16_dense_prims xs) conv) fuel (c16_iterrange c16_dense_begin (c16_dense_end n)) = C16Ok (map Some xs) /\
+    c16_range_for (c16_legacy_ops (c16_generic_prims xs) conv) fuel (c16_iterrange 0 n) = C16Ok (map Some xs) /\
+    c16_range_for (c16_legacy_ops (c16_sl_prims xs) conv) fuel (c16_iterrange 0 n) = C16Ok (map Some xs) /\
+    c16_range_for (c16_legacy_ops (c16_cw_prims xs) conv) fuel (c16_iterrange c16_dense_begin (c16_dense_end n)) = C16Ok (map Some xs).
+Proof. exact c16_container_traversal. Qed.
+Print Assumptions C16_container_traversal.
+
+Theorem C16_arraylist_traversal :
+  forall (st : list Z) (start size : nat) (conv : bool) (fuel : nat),
+    (start + size <= length st)%nat -> Z.of_nat (length st) <= 2 ^ 61 -> (size < fuel)%nat ->
+    c16_alist_begin (Z.of_nat start) = c16_alist_rep (Z.of_nat start) 0 /\
+    c16_alist_end (Z.of_nat start) (Z.of_nat size) = c16_alist_rep (Z.of_nat start) (Z.of_nat size) /\
+    c16_range_for (c16_legacy_ops (c16_alist_prims (Z.of_nat start) (Z.of_nat size) st) conv) fuel
+        (c16_iterrange (c16_alist_begin (Z.of_nat start)) (c16_alist_end (Z.of_nat start) (Z.of_nat size)))
+      = C16Ok (map Some (firstn size (skipn start st))).
+Proof. exact c16_arraylist_traversal. Qed.
+Print Assumptions C16_arraylist_traversal.
+
 (* ------------------------------------------------------------------ non-vacuity *)
 (* the hypotheses of C16_facade_laws are satisfiable by a real instance, and the conclusion speaks about real values:
    one-before-begin (size_t(-1)) < position 2 for a mutable lhs and a const rhs *)
@@ -280,3 +444,25 @@ Example C16_ex_sorted : c16_iseq_sorted Z.ltb [5; 5; 0; 9; 2; 2; 7] = [0; 2; 2; 
 Proof. vm_compute. split; reflexivity. Qed.
 Example C16_ex_manual_protocol : c16_o_inc (c16_nf_ops_manual (c16_vec_base [10; 20]) (fun p => c16_at [10; 20] p)) 0 = 1 /\ c16_dense_find 3 7 = 3.
 Proof. vm_compute. split; reflexivity. Qed.
+Example C16_ex_deep_dense : let o := c16_legacy_ops (c16_tag_prims (c16_dense_prims [10; 20; 30])) false in
+  c16_o_le o (7, c16_dense_rep (-1)) (7, c16_dense_rep 0) = true /\ c16_post_dec o (7, c16_dense_rep 0) = ((7, 0), (7, 18446744073709551615)) /\
+  c16_o_eq o (7, 1) (8, 1) = false.
+Proof. vm_compute. repeat split; reflexivity. Qed.
+Example C16_ex_deep_sllist : c16_sl_facade_eq (C16SlMod 1 2) (C16SlConst 2) = true /\ c16_sl_facade_ne (C16SlIt 1) (C16SlMod 1 2) = true /\
+  c16_sl_inc c16_sl_begin_modify = C16SlMod 0 1 /\ c16_sl_wf (C16SlMod 0 1).
+Proof. vm_compute. repeat split; reflexivity. Qed.
+Example C16_ex_deep_sparse_indexed :
+  c16_range_for (c16_sparse_over (c16_idx_ops (c16_tr_ops (fun x => x) [4; 5; 6])) c16_idx_index) 5 (c16_iterrange (0, 10) (3, 13))
+  = C16Ok [(Some 4, 10); (Some 5, 11); (Some 6, 12)].
+Proof. vm_compute. reflexivity. Qed.
+Example C16_ex_deep_static_range : c16_sirange_at {| c16_bits := 8; c16_signed := true |} (-100) 199 = 99 /\ c16_sirange_size {| c16_bits := 8; c16_signed := true |} (-100) 100 = 200.
+Proof. vm_compute. split; reflexivity. Qed.
+Example C16_ex_deep_transformed_over_arraylist :
+  let o := c16_legacy_ops (c16_alist_prims 2 3 [-7; -7; 1; 2; 3]) true in
+  c16_range_for (c16_tr_over o (option_map (fun x => 10 * x))) 5 (c16_iterrange (c16_alist_rep 2 0) (c16_alist_rep 2 3)) = C16Ok [Some 10; Some 20; Some 30].
+Proof. vm_compute. reflexivity. Qed.
+Example C16_ex_deep_hybrid_range : c16_hy_log C16Static (c16_sirange_seq {| c16_bits := 64; c16_signed := false |} 2 6) = [2; 3; 4; 5].
+Proof. vm_compute. reflexivity. Qed.
+Example C16_ex_deep_arraylist_traversal :
+  c16_range_for (c16_legacy_ops (c16_alist_prims 2 3 [-7; -7; 1; 2; 3]) false) 5 (c16_iterrange (c16_alist_begin 2) (c16_alist_end 2 3)) = C16Ok [Some 1; Some 2; Some 3].
+Proof. vm_compute. reflexivity. Qed.
